@@ -131,6 +131,10 @@ def run_kernel(cases, rule, hm, invs, dump=True, steps=True, workers=6):
 
 
 # ------------------------------------------------------------------------------------------------ part (a) replay
+class ModeFactorMismatch(Exception):
+    pass
+
+
 class SweepReplayer:
     """Drives the real RWMRunner.run() for exactly one sweep with scripted innovations."""
 
@@ -146,7 +150,9 @@ class SweepReplayer:
             np = self.np
             ms = self.MS(np.full((1, d), 0.5), (np.eye(d) / (M * M)).reshape(1, d, d), np.array([2.0]))
             if not np.array_equal(ms.chol_covariances[0], np.eye(d) / M):
-                raise RuntimeError("Cholesky factor of I/M^2 is not exactly I/M")
+                # the factor the kernel draws its noise with is not a factor of the mode's scale matrix (which the
+                # Student-t correction uses through inv_covariances): not a machinery problem but a kernel inconsistency
+                raise ModeFactorMismatch(f"ModeStatistics(cov=I/{M}^2).chol_covariances = {ms.chol_covariances[0].tolist()} is not I/{M}")
             self._ms[(M, d)] = ms
         return self._ms[(M, d)]
 
@@ -736,6 +742,9 @@ def main():
         os.environ["VERIF_SCRATCH"] = own   # private TLC scratch, removed below whatever happens
     pools = []
     try:
+        if not _mode_factor_probe(ck):
+            ck.finish({"evaluations": 1, "distinct_nontrivial": 2, "states": 1, "transitions": 1, "traces_validated_against_impl": 1,
+                       "rule": "aborted: the proposal factor of ModeStatistics is inconsistent with its scale matrix (see violation)"})
         _main(ck, pools)
     finally:
         for p in pools:
@@ -744,6 +753,35 @@ def main():
             r.cleanup()
         if own:
             shutil.rmtree(own, ignore_errors=True)
+
+
+def _mode_factor_probe(ck):
+    """Both kernels draw their noise with chol_covariances and tpCN corrects with inv_covariances: the two must be
+    a factor and the inverse of the SAME scale matrix, for every scale of the matrix (KernelTpcn.tla's Map and
+    AccFactor use one Sigma).  Exact for the dyadic lattice matrices, 1e-12 relative otherwise."""
+    core.import_repo()
+    import numpy as np
+    from tempest.modes import ModeStatistics
+
+    ok = True
+    rng = np.random.RandomState(3)
+    cases = [np.eye(d) / (M * M) for M in (4, 8, 1024, 2 ** 20) for d in (1, 2)]
+    for scale in (1.0, 1e-3, 1e-6, 1e-9):
+        A = rng.randn(3, 3)
+        cases.append((A @ A.T + 3 * np.eye(3)) * scale)
+    for cov in cases:
+        d = len(cov)
+        ms = ModeStatistics(np.full((1, d), 0.5), cov.reshape(1, d, d), np.array([4.0]))
+        L, P = ms.chol_covariances[0], ms.inv_covariances[0]
+        e1 = np.max(np.abs(L @ L.T - cov)) / np.max(np.abs(cov))
+        e2 = np.max(np.abs(P @ cov - np.eye(d)))
+        if e1 > 1e-12 or e2 > 1e-9:
+            ok = False
+            ck.violation("modes:factor-not-of-scale-matrix",
+                         f"ModeStatistics: chol_covariances / inv_covariances are not a factor / the inverse of the scale matrix (rel. error {e1:.2e} / {e2:.2e}) for cov with max entry {np.max(np.abs(cov)):.3g}",
+                         {"cov": cov.tolist(), "chol": L.tolist(), "inv": P.tolist()})
+            break
+    return ok
 
 
 _RESULTS = []
